@@ -25,7 +25,7 @@ import numpy as np, pandas as pd
 from . import common as C
 
 PROP = "C09"; LEVEL = "other"; P_TIER = True
-VKINDS = ("float", "int", "datetime", "datetime_us", "timedelta")
+VKINDS = ("float", "int", "datetime", "datetime_us", "timedelta", "int32", "uint8")        # int32 / uint8: narrow integers whose window sums leave the dtype's range
 TEMPORAL = ("datetime", "datetime_us", "timedelta")
 MIN_INT = C.MIN_INT
 WOPS = ("sum", "mean", "min", "max"); SOPS = ("shift", "diff")
@@ -58,6 +58,12 @@ def make_values(vkind, n, nullpat=None):
     if vkind == "int":        # beyond 2^53, odd, distinct per position, not monotonic
         vals = [2 ** 53 + 1 + 32 * i + 1024 * ((i * 5) % 7) for i in range(n)]
         return np.array(vals, dtype=np.int64), vals
+    if vkind == "int32":      # two of them already exceed 2^31
+        vals = [2 ** 31 - 1 - 3 * i - 64 * ((i * 5) % 7) for i in range(n)]
+        return np.array(vals, dtype=np.int32), vals
+    if vkind == "uint8":      # two of them already exceed 255
+        vals = [250 - 2 * i - 16 * ((i * 5) % 7) for i in range(n)]
+        return np.array(vals, dtype=np.uint8), vals
     if vkind == "timedelta":
         vals = [None if nullpat[i] else (((i * 5) % 7) * 50 - 140) * 86_400_000_000_000 + 2 * i + 1 for i in range(n)]
         return np.array([MIN_INT if x is None else x for x in vals], dtype=np.int64).view("m8[ns]"), vals
@@ -72,7 +78,7 @@ def make_values(vkind, n, nullpat=None):
     return C.make_values(vkind, n, nullpat)
 
 
-def nullable(vkind): return vkind != "int"
+def nullable(vkind): return vkind not in ("int", "int32", "uint8")
 
 
 def decode(res, unit=None):
